@@ -261,6 +261,11 @@ func runC11(w *W) {
 			input = siteStatements[k]
 		case r.Chance(1, 2):
 			input = stmts[r.Intn(len(stmts))].Text
+			if r.Chance(1, 4) {
+				if v, ok := leafSubstitute(r, input); ok && len(input) < 3000 {
+					input = v
+				}
+			}
 		case r.Chance(1, 2):
 			g := &Gen{r: r}
 			input = g.statement(3)
